@@ -38,11 +38,11 @@ MANIFEST = {
             "(C07_layout_view_do_block_partial: protect_leading_minus agrees with the one-line do-block rule) and for the "
             "whole recursive fragment without list / record / call / lambda in a laid-out position "
             "(C07_layout_view_flat_partial: same chunks, hence same view, every width and indentation); canon ignores a "
-            "trailing comma before a final closer (C07_canon_trailing_comma), which closes the list layout for elements "
-            "with chunk-equal layouts (C07_layout_view_list_partial); PARTIAL: the statement "
+            "trailing comma before a final closer (C07_canon_trailing_comma), which closes the list and call layouts for elements / "
+            "callee and arguments with chunk-equal layouts (C07_layout_view_list_partial, C07_layout_view_call_partial); PARTIAL: the statement "
             "C07_layout_preserves_tokens_full as first written is refuted by the model (missing lexical hypothesis: an "
             "identifier spelled `//`; C07_layout_preserves_tokens_full_refuted — not a defect of the code); restated with "
-            "tok_ok and without cr_free as C07_layout_view_full, of which the record / call / lambda families and lists of lists (the "
+            "tok_ok and without cr_free as C07_layout_view_full, of which the record / lambda families and lists / calls nested in lists / calls (the "
             "general canon congruence: trailing commas, `x =>` vs `(x) =>`) and tok_ok from wf + lexical sanity of names / number texts remain open; that the layout's line breaks are where grammar.pest admits NEWLINE "
             "(C07_layout_parses_full) is stated, not proved: both decided on every run by the FORMAT-items stream (real "
             "format_expr output at the widths where the layout changes, under the lexical view toks/canon evaluated by "
